@@ -2,6 +2,7 @@ package main
 
 import (
 	"fmt"
+	"go/constant"
 	"go/token"
 	"go/types"
 	"regexp"
@@ -563,6 +564,8 @@ func checkC20(p *Prog, res *Result, tier string) {
 	res.rule("C20-R9", "a metric collector is registered (MustRegister panics on duplicates) only on the miss edge of a registry lookup made under the registry's write lock", 3)
 	res.rule("C20-R10", "no nil element in a repeated message field of an answer: an element produced by a nil-for-nil converter is stored only where its argument was tested non-nil (or is an element of the backend's list)", 3)
 	res.rule("C20-R11", "no check-then-use contradiction in the request layers: a pointer that a function compares with nil somewhere is dereferenced only where it is known to be non-nil (or where an error that came with it was found nil)", 3)
+	res.rule("C20-R12", "a channel is closed once: a function with several callers that closes a channel it is handed does so only after finding it in its registry (comma-ok lookup), and removes it there on the same path", 1)
+	res.rule("C20-R13", "no counter is emitted with a value that may be negative: the value of an EmitCounter is not derived from a subtraction (through fields and parameters) unless a dominating test makes it non-negative", 1)
 	res.rule("C20-R6", "label values reach the prometheus client only through a UTF-8 sanitiser: request bytes used as a label value (a watched prefix) cannot make With() panic", 1)
 	res.rule("C20-R5", "no allocation is sized by an integer taken from a request (limit, revision, lease ...) without an upper bound: make() with such a size can exceed memory or panic outright", 3)
 	res.rule("C20-R4", "constant-index accesses to request-derived slices in the etcd request layer are dominated by a matching length test", 5)
@@ -757,6 +760,8 @@ func checkC20(p *Prog, res *Result, tier string) {
 	checkRegisterOnce(p, res, "C20-R9")
 	checkNoNilMessageElement(p, res, "C20-R10")
 	checkNilBeliefContradiction(p, res, "C20-R11")
+	checkCloseOnce(p, res, "C20-R12")
+	checkCounterValuesNonNegative(p, res, "C20-R13")
 	checkStreamResponsesComplete(p, res, "C20-R2")
 	// R7: self-deadlock (C19-R5)
 	checkSelfDeadlock(p, p.lockContext(), res, "C20-R7")
@@ -2228,5 +2233,196 @@ func checkRevisionsAreNotPositions(p *Prog, res *Result, rule string) {
 	}
 	if n == 0 {
 		res.und(rule, "ring buffers: positions", "-", "no position or size found in the methods of a ring type")
+	}
+}
+
+// checkCloseOnce (C20-R12): closing a closed channel panics. A function that closes a channel it is handed, and that
+// is called from more than one place (the watcher hub's DeleteWatcher: by the hub when it drops a slow watcher, and by
+// the goroutine that fires when the watch's context ends), closes it only after finding it in the registry it is kept
+// in - a comma-ok lookup with that channel as key that was true - and removes it from the registry on the same path,
+// so that the second caller finds nothing.
+func checkCloseOnce(p *Prog, res *Result, rule string) {
+	p.buildCallers()
+	n, guarded := 0, 0
+	for _, f := range p.AllFuncs {
+		if f.Pkg == nil || f.Blocks == nil || !strings.HasPrefix(f.Pkg.Pkg.Path(), modPath) {
+			continue
+		}
+		for _, c := range callsIn(f) {
+			bi, ok := c.Common().Value.(*ssa.Builtin)
+			if !ok || bi.Name() != "close" || len(c.Common().Args) != 1 {
+				continue
+			}
+			prm, ok := resolve(c.Common().Args[0]).(*ssa.Parameter)
+			if !ok || prm.Parent() != f {
+				continue
+			}
+			n++
+			sites := 0
+			for _, cs := range p.callers[f] {
+				if cs.Parent() != nil && cs.Parent().Pkg != nil && strings.HasPrefix(cs.Parent().Pkg.Pkg.Path(), modPath) {
+					sites++
+				}
+			}
+			if sites < 2 {
+				continue
+			}
+			// every caller hands over a channel it has just made (one closer per channel by construction)
+			ownEach := true
+			pi := paramIndex(prm)
+			for _, cs := range p.callers[f] {
+				if cs.Common().IsInvoke() || pi >= len(cs.Common().Args) {
+					ownEach = false
+					continue
+				}
+				if _, isMake := p.resolveDeep(cs.Common().Args[pi]).(*ssa.MakeChan); !isMake {
+					ownEach = false
+				}
+			}
+			if ownEach {
+				continue
+			}
+			guarded++
+			construct := fmt.Sprintf("%s: close of the channel it is handed", funcName(f))
+			found, deleted := false, false
+			var mapV ssa.Value
+			for _, cf := range dominatingFacts(c.Block()) {
+				ex, ok := resolve(cf.Raw).(*ssa.Extract)
+				if !ok || ex.Index != 1 || !cf.Want {
+					continue
+				}
+				lk, ok := ex.Tuple.(*ssa.Lookup)
+				if !ok || !lk.CommaOk || resolve(lk.Index) != ssa.Value(prm) {
+					continue
+				}
+				found, mapV = true, lk.X
+			}
+			if found {
+				for _, c2 := range callsIn(f) {
+					if b2, ok := c2.Common().Value.(*ssa.Builtin); ok && b2.Name() == "delete" && len(c2.Common().Args) == 2 &&
+						resolve(c2.Common().Args[1]) == ssa.Value(prm) && accessPath(c2.Common().Args[0]) == accessPath(mapV) {
+						if c2.Block() == c.Block() || c.Block().Dominates(c2.Block()) || c2.Block().Dominates(c.Block()) {
+							deleted = true
+						}
+					}
+				}
+			}
+			switch {
+			case !found:
+				res.bad(rule, construct, p.pos(c.Pos()), fmt.Sprintf("the function is called from %d places and closes the channel without having found it in the registry first: the second caller (the hub dropped a slow watcher, then the client's context ends) closes a closed channel, and the panic - in a goroutine nothing recovers - takes the node down", sites))
+			case !deleted:
+				res.bad(rule, construct, p.pos(c.Pos()), "the channel is closed under the registry test but not removed from the registry on that path: the next caller finds it again and closes it a second time")
+			default:
+				res.ok(rule, construct, p.pos(c.Pos()), "closed only when found in the registry, and removed from it on the same path")
+			}
+		}
+	}
+	if guarded == 0 {
+		res.ok(rule, "channel closes", "-", fmt.Sprintf("%d close(parameter) site(s), none in a function with several callers", n))
+	}
+}
+
+// checkCounterValuesNonNegative (C20-R13): the production client panics when a counter is decreased
+// ("counter cannot decrease in value"), inside metric emission, in whatever goroutine emits. The value handed to
+// EmitCounter is therefore never the result of a subtraction (or a negative constant), directly or through the field or
+// variable it is kept in, unless the emission is guarded by a test that the value is positive.
+func checkCounterValuesNonNegative(p *Prog, res *Result, rule string) {
+	emit := p.ifaceMethod("pkg/metrics", "Metrics", "EmitCounter")
+	n, bad := 0, 0
+	perFnBad := map[*ssa.Function]int{}
+	for _, f := range p.AllFuncs {
+		if f.Pkg == nil || f.Blocks == nil || !strings.HasPrefix(f.Pkg.Pkg.Path(), modPath) {
+			continue
+		}
+		for _, c := range callsIn(f) {
+			if !c.Common().IsInvoke() || c.Common().Method != emit || len(c.Common().Args) < 2 {
+				continue
+			}
+			n++
+			seen := map[ssa.Value]bool{}
+			var neg func(v ssa.Value, d int) ssa.Instruction
+			neg = func(v ssa.Value, d int) ssa.Instruction {
+				v = resolve(v)
+				if d > 8 || seen[v] {
+					return nil
+				}
+				seen[v] = true
+				switch x := v.(type) {
+				case *ssa.MakeInterface:
+					return neg(x.X, d+1)
+				case *ssa.Convert:
+					return neg(x.X, d+1)
+				case *ssa.Const:
+					if x.Value != nil && x.Value.Kind() == constant.Int && constant.Sign(x.Value) < 0 {
+						return c.(ssa.Instruction)
+					}
+				case *ssa.BinOp:
+					if x.Op == token.SUB {
+						return x
+					}
+					if x.Op == token.ADD || x.Op == token.MUL {
+						if i := neg(x.X, d+1); i != nil {
+							return i
+						}
+						return neg(x.Y, d+1)
+					}
+				case *ssa.UnOp:
+					if x.Op == token.SUB {
+						return x
+					}
+					if x.Op == token.MUL {
+						if fa, ok := x.X.(*ssa.FieldAddr); ok {
+							for _, st := range p.fields().stores[fieldOf(fa)] {
+								if i := neg(st.Val, d+1); i != nil {
+									return i
+								}
+							}
+						}
+					}
+				case *ssa.Phi:
+					for _, e := range x.Edges {
+						if i := neg(e, d+1); i != nil {
+							return i
+						}
+					}
+				case *ssa.Parameter:
+					for _, a := range p.paramActuals(x) {
+						if i := neg(a, d+1); i != nil {
+							return i
+						}
+					}
+				}
+				return nil
+			}
+			at := neg(c.Common().Args[1], 0)
+			if at == nil {
+				continue
+			}
+			// guarded by "value > 0" / ">= 0" / ">= 1"?
+			val := resolve(c.Common().Args[1])
+			if mi, ok := val.(*ssa.MakeInterface); ok {
+				val = resolve(mi.X)
+			}
+			guardOK := false
+			for _, cf := range dominatingFacts(c.Block()) {
+				if cf.X == nil {
+					continue
+				}
+				if sameVal(cf.X, val) && ((cf.Op == token.GTR && cf.Want) || (cf.Op == token.GEQ && cf.Want) || (cf.Op == token.LSS && !cf.Want) || (cf.Op == token.LEQ && !cf.Want)) {
+					if k, ok := constInt(cf.Y); ok && k >= 0 {
+						guardOK = true
+					}
+				}
+			}
+			if guardOK {
+				continue
+			}
+			bad++
+			perFnBad[f]++
+			res.bad(rule, fmt.Sprintf("%s: value of a counter emission #%d", funcName(f), perFnBad[f]), p.pos(at.Pos()), "the value of a counter emission comes out of a subtraction (or is a negative constant) and nothing on the way to the emission establishes that it is not negative: the prometheus client panics on a counter that decreases, in the goroutine that emits - a request whose iterator is closed before its first step is enough")
+		}
+	}
+	if bad == 0 {
+		res.ok(rule, "counter emissions", "-", fmt.Sprintf("%d emission(s), no value derived from a subtraction", n))
 	}
 }
